@@ -1019,6 +1019,13 @@ fn check_history(ctx: &mut Ctx, h: &Hist, max_boundaries: usize, max_images: usi
     if explained {
         ctx.report.traces_validated_against_impl += 1;
     }
+    // the two hypotheses of C01_run_verdict_is_hypothesis, decided by the model on this log:
+    // the invariant holds when Index::create has returned, the rest of the log is disciplined
+    let verdict = ctx.model.ask(&format!("C01 verdict {} {line}", trace.base_tok));
+    ctx.report.count(&format!("run-verdict:{}", verdict.replace(' ', ",")));
+    if verdict.contains("inv=0") || verdict == "bad-op" {
+        ctx.report.violation("model", "C01:state-after-create-breaks-invariant", format!("model verdict on the real log: {verdict} (the state reached when Index::create returned does not satisfy the protocol invariant)"), json!({"kind":"history","history":hist_json}));
+    }
     for (_, rs) in &viol {
         for r in rs {
             ctx.report.count(&format!("discipline-violated:D{}", match r { 30 => "3a".into(), 31 => "3b".into(), x => x.to_string() }));
